@@ -37,7 +37,7 @@ void mt_decode_engine(mt_case * c, mt_engine_cfg * e, int maxW) {
 }
 
 static mv_config g_cfg;
-int mt_fill_byte;
+int mt_fill_byte, mt_allow_prelude;
 
 /* push and pop are the owner's operations: whoever executes one on a worker's run queue must be running on that worker */
 static void qop_check(void * q, int kind) {
@@ -61,6 +61,7 @@ static void own_free(int kind, void * ptr, size_t size, int rank) { (void)ptr; (
 extern void (*volatile myth_verif_alloc_fn)(int, void *, size_t, int) __attribute__((weak));
 extern void (*volatile myth_verif_free_fn)(int, void *, size_t, int) __attribute__((weak));
 
+static void mt_prelude(mt_case * c);
 void mt_lib_start(mt_case * c, mt_engine_cfg * e, size_t def_stack) {
   myth_globalattr_t a;
   mv_install();
@@ -92,8 +93,67 @@ void mt_lib_start(mt_case * c, mt_engine_cfg * e, size_t def_stack) {
   mv_set_quiescent_fn(mt_all_queues_empty);
   mt_desc("engine: W=%d mode=%s tail_preempt=%d/256 sched_bytes=%zu seed=%u\n", e->W,
           e->mode == MV_NOISE ? "noise" : "controlled", e->tail_preempt, c->sched_len, c->seed);
+  int prelude = mt_allow_prelude && c->gen >= 1 && c->cfg.n >= 8 && (c->cfg.p[5] & 8) && (c->cfg.p[5] & 7);
+  if (prelude) mt_desc("prelude: %d steps of unrelated library use before the program (kinds %02x, args %02x: detached / detach / join threads, custom stacks, keys)\n", c->cfg.p[5] & 7, c->cfg.p[6], c->cfg.p[7]);
   mt_flush_early();
   mv_enable(&g_cfg);
+  if (prelude) mt_prelude(c);
+}
+
+
+/* ---------------- prelude: history left behind by unrelated use of the library ----------------
+   Thread records, stacks and their embedded thread-specific-data nodes are recycled through per-worker free
+   lists.  Before the scenario's own program starts, a generated sequence of ordinary library use runs to
+   completion on the main thread, so that the program is served recycled objects with a past: records of
+   detached threads, custom stacks of sizes that are not page multiples, threads that stored values under
+   keys (with destructors) and left by myth_exit. */
+static volatile int pre_done;
+static void pre_dtor(void * v) { (void)v; }
+static myth_key_t pre_keys[3]; static int pre_nkeys;
+static void * pre_body(void * a) {
+  long v = (long)(intptr_t)a;
+  for (int i = 0; i < (int)(v & 3); i++) { myth_yield(); mv_progress(); }
+  if (v & 4) for (int k = 0; k < pre_nkeys; k++) myth_setspecific(pre_keys[k], (void *)(intptr_t)(0x5000 + v + k));
+  __sync_fetch_and_add(&pre_done, 1);
+  mv_progress();
+  if (v & 8) myth_exit((void *)(intptr_t)v);
+  return (void *)(intptr_t)v;
+}
+static void mt_prelude(mt_case * c) {
+  unsigned b5 = c->cfg.p[5], b6 = c->cfg.p[6], b7 = c->cfg.p[7];
+  int n = (b5 & 8) ? (int)(b5 & 7) : 0;
+  if (!n) return;
+  static const size_t stk[4] = { 0, 20000, 33000, 16500 };
+  char what[256]; int wl = 0; what[0] = 0;
+  if (b7 & 64) { pre_nkeys = 1 + (int)(b7 & 1); for (int k = 0; k < pre_nkeys; k++) if (myth_key_create(&pre_keys[k], k == 0 ? pre_dtor : 0) != 0) mt_fail("prelude: myth_key_create failed"); }
+  for (int i = 0; i < n; i++) {
+    unsigned kind = (b6 >> (2 * (i & 3))) & 3, arg = ((b7 >> i) & 15) | ((kind == 3 || pre_nkeys) ? 4u : 0u);
+    myth_thread_attr_t at; myth_thread_t t; void * rv = 0; int before = pre_done;
+    myth_thread_attr_init(&at);
+    if (stk[(b7 >> (i + 1)) & 3]) myth_thread_attr_setstacksize(&at, stk[(b7 >> (i + 1)) & 3]);
+    switch (kind) {
+    case 0:   /* created detached */
+      myth_thread_attr_setdetachstate(&at, 1);
+      if (myth_create_ex(&t, &at, pre_body, (void *)(intptr_t)arg) != 0) mt_fail("prelude: create failed");
+      while (pre_done == before) { mv_spin(1002); myth_yield(); }
+      wl += snprintf(what + wl, sizeof what - wl, " detached-attr"); break;
+    case 1:   /* detached while it runs or after it finished */
+      if (myth_create_ex(&t, &at, pre_body, (void *)(intptr_t)arg) != 0) mt_fail("prelude: create failed");
+      if (myth_detach(t) != 0) mt_fail("prelude: detach failed");
+      while (pre_done == before) { mv_spin(1002); myth_yield(); }
+      wl += snprintf(what + wl, sizeof what - wl, " detach"); break;
+    default:  /* joined; leaves by return or by myth_exit, with or without values under keys */
+      if (myth_create_ex(&t, kind == 2 ? &at : 0, pre_body, (void *)(intptr_t)arg) != 0) mt_fail("prelude: create failed");
+      if (myth_join(t, &rv) != 0 || rv != (void *)(intptr_t)arg) mt_fail("prelude: join delivered %p", rv);
+      wl += snprintf(what + wl, sizeof what - wl, kind == 2 ? " attr+join" : " join"); break;
+    }
+    mv_progress();
+  }
+  /* let the detached threads finish their final switch before the program starts */
+  for (int i = 0; i < 4; i++) { myth_yield(); mv_progress(); }
+  if (pre_nkeys && (b7 & 128)) for (int k = 0; k < pre_nkeys; k++) myth_key_delete(pre_keys[k]);
+  mt_label("prelude");
+  mt_hash_u(((uint64_t)b5 << 16) | ((uint64_t)b6 << 8) | b7);
 }
 
 void mt_lib_finish(void) {
